@@ -78,4 +78,30 @@ PROPS = {
                      "array elements are always fresh variants, never other handles",
                      "fault kinds: none exist at this surface"],
     ),
+    "C19": dict(
+        quick={"batches": [dict(name="plain-build schedules (result, snapshot, repeatability oracles)", runs=60_000, wall=150, recheck=300),
+                           dict(name="race-build schedules (race detector armed, sync-ignored hand-off)", runs=12_000, wall=150, recheck=100, race=True)],
+               "minimise_wall": 40},
+        thorough={"batches": [dict(name="plain-build schedules (result, snapshot, repeatability oracles)", runs=4_000_000, wall=1500, recheck=2000),
+                              dict(name="race-build schedules (race detector armed, sync-ignored hand-off)", runs=600_000, wall=1500, recheck=500, race=True)],
+                  "minimise_wall": 180},
+        race=True,
+        anchor_files=["calculator/ExpressionCalculator.go", "calculator/CalculationStack.go", "variants/AbstractVariantOperations.go",
+                      "variants/Variant.go", "mustache/MustacheTemplate.go", "tokenizers/generic/SymbolNode.go"],
+        rule="A case is one plan plus its executed schedule: one parsed ExpressionCalculator or MustacheTemplate shared by 2-4 tasks, each with two "
+             "private variable sets and 1-4 evaluations, or 2-4 tasks each constructing and using its own calculator, template, generic / expression / "
+             "CSV / mustache tokenizer; tasks are real goroutines run one at a time by a seeded scheduler (policies uniform, sticky, round-robin, PCT, "
+             "starve-one; quanta of 1-400 yield steps) that can switch between any two statements of the library. Non-trivial: at least one context "
+             "switch happened while tasks were inside library code. Distinct: hash of (scenario, setup, tasks, executed schedule).",
+        state_measure="not applicable (no model state: evaluation is compared with the sequential result); see distinct_schedules and distinct_switch_site_pairs",
+        probes=["scenario_shared-calculator", "scenario_shared-template", "scenario_separate", "scenario_map-order-repeat", "map_order_case_colliding"],
+        real=["every library package (instrumented copy): calculator, parsers, tokenizers, functions, variables, variants, mustache, csv, io"],
+        stub=["none: variable collections and maps are the library's own types filled by the harness"],
+        assumptions=["the hand-off between scheduler and tasks is hidden from the race detector with runtime.RaceDisable, so tasks look unsynchronised "
+                     "although exactly one runs at a time; synchronisation performed by the library or by fmt/strconv inside it stays visible",
+                     "race reports count only when both innermost frames are library code; a report in harness code is exit 2",
+                     "clock and random functions are excluded from these workloads (their results legitimately differ); maps with keys that differ "
+                     "by case only are excluded (unowned map iteration order)",
+                     "fault kinds: none are injected in this check; the explored space is the schedule"],
+    ),
 }
